@@ -489,6 +489,13 @@ class SimplicialComplex(Hypergraph):
                     warn(f"uid {idx} already exists, cannot add simplex {members}.")
                     continue
 
+                try:
+                    _ = frozenset(members)
+                except TypeError as e:
+                    raise XGIError("Invalid ebunch format") from e
+                if None in _:
+                    raise XGIError("None cannot be a node or edge")
+
                 if max_order is not None:
                     if len(members) > max_order + 1:
                         combos = powerset(
@@ -497,13 +504,6 @@ class SimplicialComplex(Hypergraph):
                         faces += list(combos)
 
                         continue
-
-                try:
-                    _ = frozenset(members)
-                except TypeError as e:
-                    raise XGIError("Invalid ebunch format") from e
-                if None in _:
-                    raise XGIError("None cannot be a node or edge")
 
                 self._add_simplex(frozenset(members), idx, **attr)
 
@@ -587,6 +587,13 @@ class SimplicialComplex(Hypergraph):
             if format1 or format3:
                 idx = next(self._edge_uid)
 
+            try:
+                member_set = frozenset(members)
+            except TypeError as e:
+                raise XGIError("Invalid ebunch format") from e
+            if None in member_set:
+                raise XGIError("None cannot be a node or edge")
+
             if max_order is not None:
                 if len(members) > max_order + 1:
                     combos = powerset(
@@ -611,12 +618,6 @@ class SimplicialComplex(Hypergraph):
 
                 continue
 
-            try:
-                member_set = frozenset(members)
-            except TypeError as e:
-                raise XGIError("Invalid ebunch format") from e
-            if None in member_set:
-                raise XGIError("None cannot be a node or edge")
             self._edge[idx] = member_set
 
             for n in members:
